@@ -666,4 +666,21 @@ def noConsumerL : List Tree → Bool
   | t :: ts => t.noConsumer && noConsumerL ts
 end
 
+mutual
+/-- no `Split` with branches and no source element (whose outputs are not per-value) -/
+def St.linear : St → Bool
+  | .src => false
+  | .split bs => bs.isEmpty
+  | .seq _ cs _ => linearL cs
+  | _ => true
+def linearL : List St → Bool
+  | [] => true
+  | s :: ss => s.linear && linearL ss
+end
+
+/-- concatenation of two optional flows -/
+def appendOpt : Option (List Item) → Option (List Item) → Option (List Item)
+  | some a, some b => some (a ++ b)
+  | _, _ => none
+
 end Lena.C13
